@@ -31,7 +31,7 @@ fn emit<const D: usize>(id: &str, variant: &str, pts: &[Vec<f64>], out: &mut Out
         out.obs(&format!("facet{i}"), &val(catch(|| facet_measure(&f).map_err(ek))));
     }
     // quality measures need a triangulation cell: build the single-simplex triangulation
-    if D >= 2 {
+    if D >= 1 {
         let vs: Vec<Vertex<f64, (), D>> = Vertex::from_points(&ps);
         if let Ok(Ok(dt)) = catch(|| DelaunayTriangulation::<_, (), (), D>::new(&vs)) {
             if dt.number_of_cells() == 1 {
